@@ -191,6 +191,12 @@ def c_side_match(ctx, e):
     if len(loops) != 1 or not isinstance(loops[0], pyast.For):
         raise Unsupported(f'drift: {fn} is expected to contain exactly one for-loop (invariant#1)')
     rs_sort = I.sorts.sort_of_enum(e.RS)[0]
+    # the accumulator is the dict the loop body stores into (its name is read off the code: a renamed local is not drift)
+    stores = {t.value.id for n in pyast.walk(loops[0]) if isinstance(n, pyast.Assign) for t in n.targets
+              if isinstance(t, pyast.Subscript) and isinstance(t.value, pyast.Name)}
+    if len(stores) != 1:
+        raise Unsupported(f'drift: {fn}: the for-loop is expected to store into exactly one dict')
+    v_acc = next(iter(stores))
 
     def phi(p_, selfv, seen, d: DictV, path):
         """invariant body for one port name p_"""
@@ -206,8 +212,11 @@ def c_side_match(ctx, e):
         S = interp.eval(node.iter, env, path)
         if not (isinstance(S, SetV) and S.sym is not None):
             raise Unsupported('match: loop source is expected to be the symbolic set of expected ports')
-        selfv = env.lookup('self')
-        result = env.lookup('result')
+        try:
+            selfv = env.lookup('self')
+            result = env.lookup(v_acc)
+        except KeyError as ke:
+            raise Unsupported(f'drift: {fn}: loop state variable {ke} not found')
         if not isinstance(result, DictV):
             raise Unsupported('drift: match: `result` is expected to be a dict')
         tag = path.__dict__.get('oid_tag', '?')
@@ -240,14 +249,14 @@ def c_side_match(ctx, e):
 
         def body(p):
             env_c = copy.deepcopy(env)
-            dres = env_c.lookup('result')
+            dres = env_c.lookup(v_acc)
             dres.concrete, dres.dom, dres.val, dres.val_wrap = None, dom, val, dh.val_wrap
             interp.assign(node.target, ops.mkstr([x]), env_c, p)
             try:
                 interp.exec_block(node.body, env_c, p)
             except RaiseSignal as rs:
                 return ('raise', rs.exc, None)
-            return ('normal', None, env_c.lookup('result'))
+            return ('normal', None, env_c.lookup(v_acc))
 
         for k, (p, (kind, exc, dres)) in enumerate(explore(pp, body)):
             if kind == 'raise':
